@@ -3,6 +3,7 @@ mod daemon;
 mod shm;
 mod ra;
 mod poller;
+mod world;
 mod wire;
 mod rng;
 mod util;
@@ -20,6 +21,7 @@ fn exec_line(line: &str) -> String {
         Some("extract") => daemon::exec_extract(&toks),
         Some("gen") => shm::exec_gen(&toks),
         Some("sl") => ra::exec_sl(line),
+        Some("world") => world::exec(line),
         Some("poll") => poller::exec(&toks, line).unwrap_or_else(|| "bad-op".into()),
         Some("slx") => ra::exec_slx(&toks),
         Some("upd") => daemon::exec_upd(line),
@@ -79,6 +81,12 @@ fn main() {
             for g in poller::grid() { emit(g); }
             let mut rng = rng::Rng::new(seed ^ 0xC13);
             for _ in 0..count { emit(poller::gen_poll(&mut rng)); }
+        }
+        Some("worldgen") => {
+            let seed: u64 = args[2].parse().unwrap();
+            let count: usize = args[3].parse().unwrap();
+            let mut rng = rng::Rng::new(seed ^ 0xc01);
+            for _ in 0..count { emit(world::gen_world(&mut rng)); }
         }
         Some("slxgen") => {
             // one full exhaustion of the retry budget + short scripted runs (more with `all`)
